@@ -1,5 +1,6 @@
 """C20  On-disk message log stays well-formed and gap-free across rotation/restart/crash."""
 import glob
+import ast
 import json
 import os
 import random
@@ -19,7 +20,7 @@ LEVEL = 'fault_enumeration'
 TECHNIQUE = 'runtime monitoring with crash-point injection: offline audit of the real DefaultHandler log directory after every event, with restarts injected after every event (clean), at every byte offset of the last record (torn tail) and between rotation and the first write (empty newest file)'
 RULE = ('histories of handler callbacks (update_received, on_update_error, open_received, send_open, route_refresh_received, '
         'notification_received, on_connection_lost, on_connection_failed, keepalive_received; payloads incl. values that cannot be '
-        'serialised - bytes the real decoders return for unknown families) with rotation thresholds forcing 0..k rotations; after every '
+        'serialised - bytes the real decoders return for unknown families) with rotation thresholds forcing 0..k rotations, every eighth history on a directory that already holds 1-6 list-format records of an older release (they keep their place in the numbering and must survive); after every '
         'event the directory is audited (every non-empty line one JSON object with t, seq, type, msg; exactly one line per logging '
         'callback; seq +1 from line to line across files) and crash points are injected: restart on a snapshot, truncation of the '
         'newest file at EVERY byte offset of the last record, an empty newest file; each followed by a restart (must not exit or raise), '
@@ -155,6 +156,7 @@ def audit(root):
     problems = []
     prev = 0
     nlines = 0
+    legacy_seen = 0
     for f in files:
         with open(f, 'rb') as fh:
             data = fh.read()
@@ -166,6 +168,15 @@ def audit(root):
                     pass
                 continue
             nlines += 1
+            if ln in CUR.get('legacy', ()):
+                # a record written by an older release (Python list literal [t, seq, type, msg, family]): it keeps its place
+                # in the numbering and must still be there
+                legacy_seen += 1
+                seq = ast.literal_eval(ln.decode('utf-8'))[1]
+                if seq != prev + 1:
+                    problems.append(('seq-gap' if seq > prev + 1 else 'seq-reused', 'sequence %s follows %s (file %s)' % (seq, prev, os.path.basename(f))))
+                prev = seq
+                continue
             try:
                 rec = json.loads(ln.decode('utf-8'))
             except Exception:
@@ -181,7 +192,23 @@ def audit(root):
         body = data[:-1] if data.endswith(b'\n') else data
         if b'\n\n' in data or data.startswith(b'\n'):
             problems.append(('empty-line', 'empty line in %s' % os.path.basename(f)))
+    if legacy_seen != len(CUR.get('legacy', ())):
+        problems.append(('existing-records-removed', '%d of the %d records an older release had written are gone' % (len(CUR['legacy']) - legacy_seen, len(CUR['legacy']))))
     return problems, nlines, prev, len(files)
+
+
+def write_legacy(root, rng):
+    d = os.path.join(root, pdir(), 'msg')
+    os.makedirs(d, exist_ok=True)
+    recs = []
+    for i in range(rng.randint(1, 6)):
+        kind = rng.choice([1, 2, 4])
+        msg = {1: {'bgpID': '10.0.0.2', 'Version': 4, 'holdTime': 180, 'ASN': 65002, 'Capabilities': {'fourbytesAS': True}},
+               2: {'ATTR': {1: 0, 2: [(2, [65002])], 3: '10.0.0.2'}, 'WITHDRAW': [], 'NLRI': ['198.51.100.0/24']}, 4: None}[kind]
+        recs.append(str([1500000000.1 + i, i + 1, kind, msg, (1, 1) if kind == 2 else (0, 0)]).encode('ascii'))
+    with open(os.path.join(d, '1500000000.05.msg'), 'wb') as fh:
+        fh.write(b''.join(r + b'\n' for r in recs))
+    return tuple(recs)
 
 
 def count_lines(root):
@@ -200,9 +227,10 @@ def plan(tier, seed):
 
 def run_shard(sh):
     res = dict(evaluations=0, counters=dict(events=0, lines_audited=0, clean_restarts=0, torn_tail_restarts=0, empty_newest_restarts=0, rotations_forced=0,
-                                            torn_offsets=0, unserialisable_payloads=0),
+                                            torn_offsets=0, unserialisable_payloads=0, legacy_directories=0),
                maxima={}, sets={}, distinct=[], samples=[], violations=[])
     V = {}
+    CUR['legacy'] = ()
 
     def bad(kind, feats, detail, replay):
         V.setdefault((kind, tuple(sorted(feats))), dict(kind=kind, features=sorted(feats), detail=detail, replay=replay))
@@ -227,6 +255,12 @@ def run_shard(sh):
             rep = dict(history=hist, max_size=max_size, write_keepalive=wk, seed=sh['seed'], hi=hi, peer=CUR['peer'], steps=CUR['step'])
             peer = FakePeer()
             reactor.reset()
+            CUR['legacy'] = ()
+            if hi % 8 == 5:
+                # the directory was written by an older release: one Python list literal per line, which get_last_seq() knows
+                CUR['legacy'] = write_legacy(root, rng)
+                res['counters']['legacy_directories'] += 1
+            rep['legacy'] = [x.decode('ascii') for x in CUR['legacy']]
             try:
                 h = new_handler(root, max_size, wk)
             except Exited as e:
@@ -272,12 +306,18 @@ def run_shard(sh):
                 if (hi + k) % 3 == 0 or sh['tier'] != 'quick':
                     cps += [('torn', o) for o in offs if last_start <= o < size]
                 cps.append(('empty-newest', None))
+                legacy_all = CUR['legacy']
                 for cp, off in cps:
+                    CUR['legacy'] = legacy_all
                     snap = os.path.join(base, 'snap')
                     shutil.rmtree(snap, ignore_errors=True)
                     shutil.copytree(root, snap)
                     d = os.path.join(snap, pdir(), 'msg')
                     expect_lines = nl
+                    legacy_saved = CUR['legacy']
+                    if cp == 'torn' and data[last_start:].rstrip(b'\n') in CUR['legacy']:
+                        # nothing was logged yet and the harness itself tears the last record of the older release
+                        CUR['legacy'] = tuple(x for x in legacy_saved if x != data[last_start:].rstrip(b'\n'))
                     if cp == 'torn':
                         with open(os.path.join(d, os.path.basename(newest)), 'r+b') as fh:
                             fh.truncate(off)
@@ -314,6 +354,7 @@ def run_shard(sh):
                         bad('lines-lost', cfeats, 'after a %s crash, restart and 2 events the log has %d complete lines, expected %d' % (cp, nl2, expect_lines + 2), crep)
                     reactor._now = now_saved
                     res['distinct'].append('%d|%d|%d|%s|%s' % (sh['seed'], hi, k, cp, off))
+                CUR['legacy'] = legacy_all
             close_handler(h)
             if hi < 2:
                 res['samples'].append(dict(history=hist, max_size=max_size, crash_points='clean, torn tail at byte offsets of the last record, empty newest file'))
